@@ -1,6 +1,6 @@
 (* Uniform executable entry point of the model for the correspondence check:
    run_case tag args = the observable outputs the implementation must produce for the same case. *)
-From DDSV Require Import base.Machine model.View model.Layout model.DecoderSM model.EncoderSM model.Split model.DecodeScript model.Formats gen.GenFormats spec.SpecLayout model.HeaderTypes gen.GenHeader model.Header model.Numeric model.BCdec model.BC7 model.Float model.Convert model.Uncomp.
+From DDSV Require Import base.Machine model.View model.Layout model.DecoderSM model.EncoderSM model.Split model.DecodeScript model.Formats gen.GenFormats spec.SpecLayout model.HeaderTypes gen.GenHeader model.Header model.Numeric model.BCdec model.BC7 model.Float model.Convert model.Uncomp model.Crop.
 
 Local Open Scope Z_scope.
 
@@ -346,6 +346,23 @@ Definition run_c40 (a : list Z) : list Z :=
   | _ => [-99]
   end.
 
+(* ---- C05: [esize; from; to; W; H; rx; ry; rw; rh; pitch; offset; buflen; prefill; native bytes...] -> buffer *)
+Fixpoint chunk_list {A} (fuel : nat) (n : nat) (l : list A) : list (list A) :=
+  match fuel with O => [] | S fu => match l with [] => [] | _ => firstn n l :: chunk_list fu n (skipn n l) end end.
+Definition run_c05 (a : list Z) : list Z :=
+  match a with
+  | esize :: from :: to :: W :: H :: rx :: ry :: rw :: rh :: pitch :: offset :: buflen :: prefill :: native =>
+      let es := Z.to_nat esize in
+      let one := if esize =? 1 then [255] else if esize =? 2 then [255; 255] else [0; 0; 128; 63] in
+      let zero := repeat 0 es in
+      let chans := chunk_list (length native) es native in
+      let pixels := chunk_list (length chans) (Crop.chcount from) chans in
+      let img := chunk_list (length pixels) (Z.to_nat W) pixels in
+      let out := Crop.crop (Z.to_nat rx) (Z.to_nat ry) (Z.to_nat rw) (Z.to_nat rh) (Crop.map_px (Crop.chmap one zero from to) img) in
+      Crop.blit (repeat prefill (Z.to_nat buflen)) (Z.to_nat offset) (Z.to_nat pitch) out
+  | _ => [-99]
+  end.
+
 Definition run_case (tag : Z) (args : list Z) : list Z :=
   match tag with
   | 20 => run_c20 args
@@ -360,6 +377,7 @@ Definition run_case (tag : Z) (args : list Z) : list Z :=
   | 17 => run_c17 args
   | 3 => run_c03 args
   | 4 => run_c04 args
+  | 5 => run_c05 args
   | 40 => run_c40 args
   | _ => [-98]
   end.
